@@ -301,12 +301,16 @@ def run_c19(ctx, replay):
     cp = gen + "/val-prefix.ndjson"
     vlib.write_ndjson(cp, cals)
     rows = []
-    with open(os.path.join(od, "t", "obs-validate.ndjson")) as fh:
+    tfile = os.path.join(od, "t", "obs-validate.ndjson")
+    already = {ln for f2, ln, _, _ in rejects if f2 == tfile}
+    with open(tfile) as fh:
         for i, line in enumerate(fh):
             if i >= 400:
                 break
             e = json.loads(line)
-            if i % 3 == 0:
+            if (i + 1) in already:
+                pass        # rejected as it stands (a corruption could "repair" it): kept, it must be rejected again
+            elif i % 3 == 0:
                 e["ok"] = not e["ok"]
             elif i % 3 == 1:
                 e["uid"] = "u2" if e["uid"] != "u2" else "u1"
